@@ -1209,6 +1209,7 @@ func (g *Gen) frameObligations(pos token.Pos) {
 		names = append(names, n)
 	}
 	sort.Strings(names)
+	var fieldGoals []string
 	for _, n := range names {
 		if n == "$alloc" || strings.HasPrefix(n, "iter.") || wholeVar[n] {
 			continue
@@ -1245,7 +1246,15 @@ func (g *Gen) frameObligations(pos token.Pos) {
 		}
 		// objects allocated by this call are not part of the caller-visible frame
 		goal := fmt.Sprintf("(forall ((r Int)) (=> (and (< r |$alloc@0|) (< (ref.root r) |$alloc@0|) %s true) (= (select %s r) (select %s r))))", strings.Join(exc, " "), cur, ent)
+		if strings.HasPrefix(n, "F.") {
+			// struct field heaps: one obligation per return for all of them together
+			fieldGoals = append(fieldGoals, goal)
+			continue
+		}
 		g.oblige("frame", n, goal, pos, "")
+	}
+	if len(fieldGoals) > 0 {
+		g.oblige("frame", "struct-fields", "(and "+strings.Join(fieldGoals, " ")+" true)", pos, "every struct field not listed in `modifies` keeps its value on objects that existed at entry")
 	}
 }
 
